@@ -51,7 +51,7 @@ def gen_scenario(seed, cfg):
     vals = []
     specials = (0, 1, -1, 2)
     for i in range(cfg['valuations']):
-        env = {'this': gen.make_message(sim, 'this'), 'A': gen.make_message(sim, 'A'),
+        env = {'this': gen.make_message(sim, 'this'), 'A': gen.make_message(sim, 'A'), 'Msg_1': gen.make_message(sim, 'Msg_1'),
                'free': {v: sim.pick('freeval', gen.NUM_GRID) for v in gen.FREE_VARS}}
         if i < len(specials):
             from fractions import Fraction
@@ -117,7 +117,7 @@ def identically_zero_divisor(expr, valuations):
             if type(node).__name__ == 'HplBinaryOperator' and node.operator.token == '/':
                 allzero = True
                 for env in valuations:
-                    oc = refeval.outcome(node.operand2, refeval.Env(env['this'], dict(env.get('free') or {}, A=env['A'])), rd)
+                    oc = refeval.outcome(node.operand2, refeval.Env(env['this'], dict(env.get('free') or {}, A=env['A'], Msg_1=env.get('Msg_1', env['A']))), rd)
                     if oc[0] == 'val':
                         try:
                             if not refeval.num_eq(oc[1], 0):
@@ -136,7 +136,7 @@ def never_defined(expr, valuations):
     rd = refeval.ALL_READINGS[0]
     undef = 0
     for env in valuations:
-        oc = refeval.outcome(expr, refeval.Env(env['this'], dict(env.get('free') or {}, A=env['A'])), rd)
+        oc = refeval.outcome(expr, refeval.Env(env['this'], dict(env.get('free') or {}, A=env['A'], Msg_1=env.get('Msg_1', env['A']))), rd)
         if oc[0] == 'val':
             return False
         if oc[0] == refeval.UNDEF:
@@ -146,7 +146,7 @@ def never_defined(expr, valuations):
 
 def judge_valuation(orig, simp, envd):
     """Returns None (no violation / not judged) or ('value'|'undef', detail). Also a status tag."""
-    env = refeval.Env(envd['this'], dict(envd.get('free') or {}, A=envd['A']))
+    env = refeval.Env(envd['this'], dict(envd.get('free') or {}, A=envd['A'], Msg_1=envd.get('Msg_1', envd['A'])))
     detail = None
     for rd in refeval.ALL_READINGS:
         o = refeval.outcome(orig, env, rd)
